@@ -429,7 +429,9 @@ pub fn instance_p(sc: &Value, p: Parameters, shared: Option<&Shared>, r: &mut St
         _ => q,
     };
     // far beyond any sensible range (soundness only): whole turns of the order of 1e9..1e10 rad
-    let prev: Joints = if prev_class == "far" && r.gen_bool(0.12) {
+    // (not at wrist-singular poses: the library brings the J4 + J6 sum into range by repeated subtraction there, which
+    //  takes 1e9 iterations - slow, not wrong)
+    let prev: Joints = if prev_class == "far" && r.gen_bool(0.12) && !matches!(pose_class, "j5-zero" | "j5-pi" | "j5-tiny") {
         prev_in_range = false;
         std::array::from_fn(|i| q[i] + (r.gen_range(1.0e8..2.0e9f64)).round() * 2.0 * PI * if r.gen_bool(0.5) { 1.0 } else { -1.0 })
     } else { prev };
